@@ -59,10 +59,12 @@ def stable_hash(s):
 
 
 def pick(progs, n, seed, always=()):
-    """Seed-rotated slice of the closed corpus: `always` ids first, then every k-th of the rest."""
+    """Seed-rotated slice of the closed corpus: `always` ids first, then every k-th of the rest (in source-text order)."""
     if n >= len(progs):
         return list(progs)
-    keyed = sorted(progs, key=lambda p: stable_hash(p["id"]))
+    # systematic sampling over the TEXT order: similar programs are neighbours, so every k-th one spreads the slice over the
+    # whole variety of a combinatorial family (every shape once rather than a random handful); the seed rotates the phase
+    keyed = sorted(progs, key=lambda p: (str(p.get("src", "")), p["id"]))
     chosen = [p for p in keyed if p["id"] in always]
     rest = [p for p in keyed if p["id"] not in always]
     k = max(1, len(rest) // max(1, n - len(chosen)))
@@ -290,7 +292,7 @@ def c03(ctx):
 
 @prop("C04")
 def c04(ctx):
-    progs = with_ids(gen.generate("GenSelf"), "sf")
+    progs = [p for p in with_ids(gen.generate("GenSelf"), "sf") if p["grp"] != "register"]
     ctx.cov["corpus_size"] = 2 * len(progs)
     sel = progs
     ctx.cov["exhaustive"] = ctx.tier != "quick"
@@ -812,9 +814,10 @@ def c19(ctx):
     merges = [p for p in with_ids(gen.generate("GenEntity"), "en") if p["grp"] == "c06:cont" and "tot" in p["src"]]
     merges += [p for p in with_ids(gen.generate("GenScalar"), "sc") if p["grp"] in ("twocons",)]
     # stateful programs (decisions about the implementation of a cell are made per program)
-    selfs = [p for p in with_ids(gen.generate("GenSelf"), "sf") if p["grp"] in ("const", "input", "cond")]
+    selfs = [p for p in with_ids(gen.generate("GenSelf"), "sf") if p["grp"] in ("const", "input", "cond", "register")]
     cells = [p for p in with_ids(gen.generate("GenMem"), "me") if p["grp"] in ("cell", "latch1")]
-    merges += (pick(selfs, 6, ctx.seed) + pick(cells, 4, ctx.seed)) if quick else (selfs + pick(cells, 16, ctx.seed))
+    regs = [p for p in selfs if p["grp"] == "register"]
+    merges += (regs + pick_strat([p for p in selfs if p["grp"] != "register"], 6, ctx.seed, min_per=2) + pick(cells, 4, ctx.seed)) if quick else (selfs + pick(cells, 16, ctx.seed))
     have = {p["id"] for p in base}
     base += [p for p in merges if p["id"] not in have]
     # sibling of a program = the next one of the same family (same names, same shape, different decisions)
@@ -822,9 +825,17 @@ def c19(ctx):
     for p in base:
         fam.setdefault((p["id"].split("-")[0], p.get("grp", "").split(":")[0]), []).append(p)
     sibling = {}
-    for lst in fam.values():
+    for (pref, _g), lst in fam.items():
+        whole = [q for (pf, _), l2 in sorted(fam.items()) if pf == pref for q in l2]     # the whole module, other groups included
         for i, p in enumerate(lst):
-            sibling[p["id"]] = lst[(i + 1) % len(lst)]["src"] if len(lst) > 1 else UNRELATED
+            # up to 8 other programs of the module, programs of OTHER groups first (same names, different decisions)
+            bygrp = {}
+            for q in whole:
+                if q["id"] != p["id"] and q.get("grp") != p.get("grp"):
+                    bygrp.setdefault(q.get("grp"), []).append(q["src"])
+            diff = [l2[k] for k in range(3) for _, l2 in sorted(bygrp.items()) if k < len(l2)]     # round-robin over the other groups
+            same = [q["src"] for q in whole if q["id"] != p["id"] and q.get("grp") == p.get("grp")]
+            sibling[p["id"]] = (diff[:6] + same[:2]) or [UNRELATED]
     ctx.cov["corpus_size"] = len(base)
     ctx.cov["exhaustive"] = False
     ctx.cov["rule"] = ("programs = GenLayout families + a slice of every other family; each compiled under 8 (quick) / 12 (thorough) variations: "
@@ -863,7 +874,7 @@ def c19(ctx):
                 job = {"id": p["id"] + "#" + name, "src": p["src"]}
                 job.update(ov)
                 if job.pop("pre_sibling", False):
-                    job["pre_src"] = sibling[p["id"]]
+                    job["pre_srcs"] = sibling[p["id"]]
                 jobs.append(job)
         results.update(compile_all(jobs, hashseed=hs))
     recs, bps = [], []
